@@ -183,7 +183,7 @@ class Check:
         return rc
 
 
-def main_for(pid: str, run_fn, argv=None) -> int:
+def main_for(pid: str, run_fn, argv=None, replay_fn=None) -> int:
     import argparse
     ap = argparse.ArgumentParser()
     ap.add_argument('--tier', default=os.environ.get('VERIF_TIER', 'quick'), choices=['quick', 'thorough'])
@@ -196,6 +196,21 @@ def main_for(pid: str, run_fn, argv=None) -> int:
         import logging
         logging.disable(logging.CRITICAL)
         use_repo()
+        if args.replay:
+            if replay_fn is None:
+                print(f'{pid}: --replay is not supported by this check')
+                return 2
+            with open(args.replay) as fh:
+                data = json.load(fh)
+            chk.tier = data.get('tier', chk.tier)
+            replay_fn(chk, data)
+            # a replay never rewrites the evidence file
+            for fp, hit in sorted(chk.known_hits.items()):
+                print(f'KNOWN-FINDING: property={pid} {fp} :: {hit["what"]}', flush=True)
+            for v in chk.violations:
+                print(f'VIOLATION property={pid} replay={args.replay}', flush=True)
+                print(f'  fingerprint={v["fingerprint"]} :: {v["what"][:600]}', flush=True)
+            return 1 if chk.violations else 0
         run_fn(chk, args)
         return chk.finish()
     except MachineryFailure as exc:
